@@ -130,6 +130,50 @@ func racUF0(name string, a ...*big.Int) *big.Int {
 		return uint(a[k].Uint64())
 	}
 	switch name {
+	case "uf_isnum", "uf_numval":
+		// the numeral vocabulary, by its definition: an optional sign and one or more ASCII digits
+		x, ok := racStrTab[a[0].Uint64()]
+		if !ok {
+			return z
+		}
+		t := x
+		if len(t) > 0 && (t[0] == '+' || t[0] == '-') {
+			t = t[1:]
+		}
+		if t == "" {
+			return z
+		}
+		for i := 0; i < len(t); i++ {
+			if t[i] < '0' || t[i] > '9' {
+				return z
+			}
+		}
+		if name == "uf_isnum" {
+			return z.SetInt64(1)
+		}
+		z.SetString(x, 10)
+		return z
+	case "uf_utext", "uf_stext":
+		x, ok := racStrTab[a[0].Uint64()]
+		if !ok || a[2].Sign() < 0 {
+			return z
+		}
+		want := a[2].Text(10)
+		if name == "uf_utext" {
+			if !a[1].IsInt64() || a[1].Int64() < 0 || a[1].Int64() > 1<<20 {
+				return z
+			}
+			want = strings.Repeat("0", int(a[1].Int64())) + want
+		} else {
+			if !a[1].IsInt64() || (a[1].Int64() != '+' && a[1].Int64() != '-') {
+				return z
+			}
+			want = string(rune(a[1].Int64())) + want
+		}
+		if x == want {
+			return z.SetInt64(1)
+		}
+		return z
 	case "uf_hasprefix":
 		x, okx := racStrTab[a[0].Uint64()]
 		p, okp := racStrTab[a[1].Uint64()]
